@@ -550,35 +550,27 @@ def run_history(case, ctx, v15, v16, coherence_every_step=True):
                 "; ".join(f"{k}: {before_extra.get(k)} -> {after[k]}" for k in diff[:6]))
         if case.get("reuse") and extra:
             pending_reuse.append((i, what, extra[0]))
-    # the attempted symbols stay available for a later valid declaration (done after the generated
-    # steps so that the unit numbering of the history is not disturbed)
+    # the attempted symbols stay available: declare each as a unit of a dedicated fresh type without reference
+    # unit (so that the extra units can never be the result of an operation on the history's own units)
+    reuse_cls = None
     for i, what, s0 in pending_reuse:
-        if True:
-            for s in [s0]:
-                cands = [t for t in w.m.types if t.kind == "base" and not t.has_ref] or \
-                        [t for t in w.m.types if t.has_ref and t.units]
-                if not cands:
-                    continue
-                t = cands[0]
-                if t.has_ref:
-                    dd = {"d": "unit", "t": t.idx, "how": "scaled", "of": t.units[0],
-                          "f": ["int", str(max(1, int(1 if w.m.unit_quantum(t.units[0]) is None else 1)))], "side": "l"}
-                    uq = w.m.unit_quantum(t.units[0])
-                    if uq is not None:
-                        dd["f"] = ["frac", fs(uq * 5)]
-                    else:
-                        dd["f"] = ["int", "5"]
-                else:
-                    dd = {"d": "unit", "t": t.idx, "how": "bare"}
-                try:
-                    exec_valid(w, dd, sym=s)
-                    reused += 1
-                    ctx.label("reused_symbol")
-                    w.attempted.remove(s)
-                except Exception as exc:  # noqa: BLE001
-                    v16(f"reuse/{what}/{type(exc).__name__}", f"after the rejected declaration #{i} ({what}) the symbol "
-                        f"{s!r} could not be declared validly: {type(exc).__name__}: {exc}")
-                    return w
+        from quantity import QuantityMeta
+        try:
+            if reuse_cls is None:
+                reuse_cls = QuantityMeta(f"{w.prefix.upper()}REUSE", (Quantity,), {})
+            ru = reuse_cls.new_unit(s0, "declared after a rejected attempt")
+            if Unit(s0) is not ru or type(Quantity(f"1 {s0}")) is not reuse_cls or ru.qty_cls is not reuse_cls:
+                v16(f"reuse/{what}/incoherent", f"symbol {s0!r} re-declared after the rejected declaration #{i} ({what}) "
+                    "does not resolve to the new unit")
+                return w
+            reused += 1
+            ctx.label("reused_symbol")
+            if s0 in w.attempted:
+                w.attempted.remove(s0)
+        except Exception as exc:  # noqa: BLE001
+            v16(f"reuse/{what}/{type(exc).__name__}", f"after the rejected declaration #{i} ({what}) the symbol "
+                f"{s0!r} could not be declared validly: {type(exc).__name__}: {exc}")
+            return w
     check_coherence(w, v15, full=True)
     ctx.label("histories")
     if rejected:
